@@ -235,10 +235,16 @@ class C10(Check):
                     by = {s.name: s for s in sc}
                     sz = [size(by[f"{c}_unloc_{i}"]) for i in range(1, len(lst) + 1)]
                     if any(inversion(sz[i], sz[i + 1]) for i in range(len(sz) - 1)):
-                        # unloc pieces cut out of one contig are ranked before the cut is made (finding D10)
-                        contigs = [next(f.name for f in by[f"{c}_unloc_{i}"].fragments()) for i in range(1, len(lst) + 1)]
-                        shared = len(set(contigs)) < len(contigs)
-                        errs.append(("unlocs-not-by-size" + ("/unlocs-share-a-cut-contig" if shared else ""), f"{key!r}: {c}: {sz!r}"))
+                        # Finding D10: unlocs are ranked by the span their lookup returned, before shared contigs are
+                        # discarded or cut.  The class suffix is attached iff ranking by that span (rows of the input
+                        # hit by the bait, terminal gaps stripped) explains every inversion seen.
+                        pre = [self.pre_trim_span(inp, scaffolds, by[f"{c}_unloc_{i}"]) for i in range(1, len(lst) + 1)]
+                        explained = all(
+                            pre[i] is not None and pre[i + 1] is not None and pre[i] >= pre[i + 1]
+                            for i in range(len(sz) - 1)
+                            if inversion(sz[i], sz[i + 1])
+                        )
+                        errs.append(("unlocs-not-by-size" + ("/ranked-by-span-before-trimming" if explained else ""), f"{key!r}: {c}: sizes {sz!r} spans at lookup {pre!r}"))
             if not twohap or (key or "").lower() == first_hap:
                 ns = sorted(n for n, _, _ in nums)
                 if ns != list(range(1, len(ns) + 1)):
@@ -324,6 +330,34 @@ class C10(Check):
                 if len(ns) > 1:
                     errs.append(("homologues-do-not-share-number", f"group {[(h, m) for h, m, _ in g]!r} numbered {sorted(map(str, ns))!r}"))
         return errs
+
+    @staticmethod
+    def pre_trim_span(inp, scaffolds, out_scffld):
+        """span of the input rows hit by the bait of the Unloc piece that became out_scffld (gaps at the ends stripped)"""
+        frs = [(f.name, f.start, f.end) for f in out_scffld.fragments()]
+        rows_by = dict(inp)
+        for _, pieces in scaffolds:
+            for src, s, e, _o, tags in pieces:
+                if "Unloc" not in tags or src not in rows_by:
+                    continue
+                pos = 0
+                hit = []
+                mine = False
+                for r in rows_by[src]:
+                    ln = r[1] if r[0] == "G" else r[3] - r[2] + 1
+                    a, b = pos + 1, pos + ln
+                    pos = b
+                    if a <= e and b >= s:
+                        hit.append((r, a, b))
+                        if r[0] == "F" and any(n == r[1] and fs >= r[2] and fe <= r[3] for n, fs, fe in frs):
+                            mine = True
+                while hit and hit[0][0][0] == "G":
+                    hit.pop(0)
+                while hit and hit[-1][0][0] == "G":
+                    hit.pop()
+                if mine and hit:
+                    return hit[-1][2] - hit[0][1] + 1
+        return None
 
     @staticmethod
     def expected_order(sc, prefix):
@@ -473,6 +507,8 @@ class C10(Check):
                 if not any("Haplotig" in p[4] for _, ps in scs for p in ps):
                     continue
                 for tag in ("Haplotig", "Unloc"):
+                    if tag == "Unloc" and any(all("Haplotig" in p[4] for p in ps) for _, ps in scs):
+                        continue  # an Unloc needs an untagged piece of its chromosome in the same Pretext scaffold
                     extra_in = ("ctg_x", (("F", "ctg_x", 1, 11, 1),))
                     inp = (*inp0[:1], extra_in)
                     new = []
